@@ -1127,7 +1127,10 @@ def _simplify_function_min(call: HplFunctionCall) -> HplExpression:
 
 def _obviously_different(a: HplExpression, b: HplExpression) -> bool:
     # assume arguments have been simplified
-    if _obvious_negatives(a, b):
+    # (not p) is never equal to p, but (-x) is equal to x when x is 0
+    if isinstance(a, HplUnaryOperator) and a.operator.is_not and a.operand == b:
+        return True
+    if isinstance(b, HplUnaryOperator) and b.operator.is_not and b.operand == a:
         return True
     if isinstance(a, HplBinaryOperator):
         op: BinaryOperatorDefinition = a.operator
@@ -1135,25 +1138,10 @@ def _obviously_different(a: HplExpression, b: HplExpression) -> bool:
             # literals are only pushed to the RHS of commutative operators,
             # e.g., (1 - x) and (2 ** x) keep their literal on the LHS
             return False
+        # (x * k), (x / k) and (x ** k) are equal to x when x is 0 (or 1)
         if op.is_plus or op.is_minus:
             if a.operand1 == b and isinstance(a.operand2, HplLiteral):
-                assert a.operand2.value != 0  # due to simplification
-                return True
-        if op.is_times:
-            if a.operand1 == b and isinstance(a.operand2, HplLiteral):
-                assert a.operand2.value != 0  # due to simplification
-                assert a.operand2.value != 1  # due to simplification
-                return True
-        if op.is_division:
-            if a.operand1 == b and isinstance(a.operand2, HplLiteral):
-                assert a.operand2.value != 0  # due to simplification
-                assert a.operand2.value != 1  # due to simplification
-                return True
-        if op.is_power:
-            if a.operand1 == b and isinstance(a.operand2, HplLiteral):
-                assert a.operand2.value != 0  # due to simplification
-                assert a.operand2.value != 1  # due to simplification
-                return True
+                return a.operand2.value != 0
     return False
 
 
